@@ -111,6 +111,10 @@ def run(ctx):
     # chunks of plates per call) - every chunk's triples must satisfy the clauses, whatever the object did before
     for _ in range(16 if ctx.quick else 120):
         traces += _observe_scorer_session(rnd)
+    # a scorer configured with a budget above the default of the functions it calls, covering more than 5000 triples
+    traces += _observe_scorer_session(rnd, ns=[34], budget=6000)
+    if not ctx.quick:
+        traces += _observe_scorer_session(rnd, ns=[40, 36], budget=10000)
     _validate(ctx, tlc, traces)
     ctx.assumptions += ["TLC integers are 32 bit: the register machine is explored for k=3 up to n=1500; rank / successor relations with plain "
                         "integers up to n=2343 (C(n,3) < 2^31) and with two-limb arithmetic up to n=6000 (C(n,3) < 3.6e10)"]
@@ -147,14 +151,14 @@ def _observe_dbal(n, budget, seed, P=2, E=3):
             "picks": [{"ind": p["ind"], "t": p["t"]} for p in picks]}
 
 
-def _observe_scorer_session(rnd):
+def _observe_scorer_session(rnd, ns=None, budget=None):
     from harness.drivers.c05 import ArrTheta, Dense
     from batchie.core import ThetaHolder
     from batchie.data import Screen
-    ns = [rnd.randint(3, 14) for _ in range(rnd.randint(2, 4))]
+    ns = ns or [rnd.randint(3, 14) for _ in range(rnd.randint(2, 4))]
     # budgets around the number of triples of one of the calls: exactly covering, just covering, just not, far below, far above
     tot = comb(rnd.choice(ns), 3)
-    budget = max(1, rnd.choice([tot, tot + 1, tot - 1, 2 * tot - 1, tot // 3, 3, 5000]))
+    budget = budget or max(1, rnd.choice([tot, tot + 1, tot - 1, 2 * tot - 1, tot // 3, 3, 5000]))
     scorer = G.GaussianDBALScorer(max_chunk=rnd.choice([1, 2, 3, 50]), max_triples=budget)
     sizes = [rnd.randint(1, 3) for _ in range(rnd.randint(1, 8))]
     rows_pl = [p for p, e in enumerate(sizes) for _ in range(e)]
